@@ -2,9 +2,10 @@
 import glob, json, os
 import vlib
 
-TARGETS = ["Base/Corr.vo", "C18/Model.vo", "C18/Corr.vo", "C18/Spec.vo", "C18/SpecTest.vo", "C18/ProofsBase.vo",
+TARGETS = ["Base/Corr.vo", "C18/Model.vo", "C18/Corr.vo", "C18/TableModel.vo", "C18/TableCorr.vo", "C18/Spec.vo", "C18/SpecTest.vo", "C18/ProofsBase.vo",
            "C18/ProofsScalar.vo", "C18/ProofsSparse.vo", "C18/ProofsDense.vo", "C18/ProofsSparseMat.vo", "C18/ProofsInst.vo", "C18/Props.vo"]
 PROPS = ["C18/Props.v"]
+STEMS = ["cases", "tcases", "ccases"]
 CORPUS = os.path.join(vlib.ROOT, "corpus/C18/corpus.jsonl")
 PROPOSED = os.path.join(vlib.ROOT, "corpus/C18/known_findings_proposed.json")
 PARTIAL = ("Theorems are about the hand-written model coq/C18/Model.v of the JSON writers/readers (scalars, dense and sparse "
@@ -53,25 +54,33 @@ def corr(ctx, binary, n):
         ctx.violation({"obligation": "C18 harness run", "log": out[-3000:]}, False,
                       "harness failed on the implementation (crash while running serialisation cases)")
         return [], []
-    meta = json.load(open(os.path.join(ctx.dir, "cases.meta.json")))
-    vlib.merge_meta(ctx, meta)
-    shards = sorted(glob.glob(os.path.join(ctx.dir, "cases_*.v")), key=lambda p: int(p.rsplit("_", 1)[1][:-2]))
-    res = vlib.eval_shards(shards)
-    ctx.oblige(len(res), sum(1 for r in res if r["ok"]))
-    cases = vlib.load_jsonl(os.path.join(ctx.dir, "cases.jsonl"))
-    bad = []
-    for k, r in enumerate(res):
-        if r["ok"]:
+    bad, ncases, nshards = [], 0, 0
+    for stem in STEMS:
+        mp = os.path.join(ctx.dir, stem + ".meta.json")
+        if not os.path.exists(mp):
+            ctx.violation({"obligation": "C18 harness output " + stem}, False, "harness wrote no %s.meta.json" % stem)
             continue
-        if r["mism"] is None:
-            ctx.violation({"obligation": "correspondence shard " + os.path.basename(r["path"]),
-                           "coqc_error": r["error"]}, False, "correspondence shard did not evaluate")
-            continue
-        for i in r["mism"]:
-            bad.append(cases[k * meta["per_shard"] + i])
+        meta = json.load(open(mp))
+        meta["samples"] = meta.get("samples") or []
+        vlib.merge_meta(ctx, meta)
+        shards = sorted(glob.glob(os.path.join(ctx.dir, stem + "_*.v")), key=lambda p: int(p.rsplit("_", 1)[1][:-2]))[:meta["shards"]]
+        res = vlib.eval_shards(shards)
+        ctx.oblige(len(res), sum(1 for r in res if r["ok"]))
+        cases = vlib.load_jsonl(os.path.join(ctx.dir, stem + ".jsonl"))
+        ncases += len(cases)
+        nshards += len(res)
+        for k, r in enumerate(res):
+            if r["ok"]:
+                continue
+            if r["mism"] is None:
+                ctx.violation({"obligation": "correspondence shard " + os.path.basename(r["path"]),
+                               "coqc_error": r["error"]}, False, "correspondence shard did not evaluate")
+                continue
+            for i in r["mism"]:
+                bad.append(cases[k * meta["per_shard"] + i])
     orc = vlib.load_jsonl(os.path.join(ctx.dir, "oracle.jsonl"))
-    ctx.log("correspondence: %d cases in %d shards, %d mismatching; oracle reported %d failures" % (
-        len(cases), len(res), len(bad), len(orc)))
+    ctx.log("correspondence: %d cases in %d shards (JSON, tables, configurations), %d mismatching; oracle reported %d failures" % (
+        ncases, nshards, len(bad), len(orc)))
     return bad, orc
 
 
